@@ -134,6 +134,17 @@ META["C19"] = dict(
         "operations are atomic scheduling steps (the back ends have no internal seam): a missing lock is invisible to the deterministic part; that clause rests on the auxiliary -race stress (bin/racestress; 8 s quick, 90 s thorough)",
         "porcupine Unknown (timeout) is counted as inconclusive and never reported"])
 
+# instrumentation call sites the simulator relies on (file -> {text: minimum number of occurrences}); checked statically by bin/check
+HOOK_SITES = {
+    "protocol/dialer.go": {"simDial(": 1},
+    "tls/client.go": {"simOrderConfigs(": 1},
+    "net/splitlistener.go": {'simPoint(l, "ingress.runlock.post")': 3, 'simPoint(l, "ingress.send.pre")': 2, 'simPoint(l, "ingress.send.post")': 2,
+                             'simPoint(l, "ingress.rlock.pre")': 2, 'simPoint(l, "ingress.rlock.post")': 2, 'simPoint(l, "drainer.recv.pre")': 2,
+                             'simPoint(l, "accept.ctxdone")': 2, 'simSelect(l, "accept.select")': 1, 'simPoint(l, "drainer.recv.post")': 1,
+                             'simPoint(l, "drainer.exit")': 1, 'simPoint(l, "drain.cancel.post")': 1, 'simPoint(l, "close.unlock.post")': 1,
+                             'simPoint(l, "close.lock.pre")': 1, 'simPoint(l, "close.lock.post")': 1, 'simPoint(l, "close.enter")': 1,
+                             'simPoint(l, "accept.select.pre")': 1, 'simPoint(l, "accept.recv.post")': 1},
+}
 HOOK_COMMITS = ["54f90f1", "c914c74", "9c93c69"]
 
 NOT_APPLICABLE = {}
